@@ -69,6 +69,10 @@ func main() {
 		fmt.Fprintln(os.Stderr, "usage: harness <domain> < cases")
 		os.Exit(2)
 	}
+	if os.Args[1] == "killchild" {
+		killChildMain(os.Args[2:])
+		return
+	}
 	d, ok := domains[os.Args[1]]
 	if !ok {
 		fmt.Fprintln(os.Stderr, "unknown domain", os.Args[1])
